@@ -33,7 +33,7 @@ Definition toy : oracle := fun name args =>
   else if String.eqb name "aes256" then [z 16]
   else if String.eqb name "xchacha20" then match args with [_; _; n] => [z (num n)] | _ => [] end
   else if String.eqb name "xcp_seal" then match args with [_; _; _; m] => [m; z 16] | _ => [] end
-  else if String.eqb name "xcp_open" then match args with [_; _; _; c; _] => [c] | _ => [] end
+  else if String.eqb name "xcp_open" then match args with [_; _; _; c; t] => if beq t (z 16) then [c] else [] | _ => [] end
   else if String.eqb name "ed_pk" then [toy_edpk]
   else if String.eqb name "ed_pk_ok" then tt1
   else if String.eqb name "ed_sign" then [z 64]
@@ -100,8 +100,13 @@ Proof.
   - intros p s i n. unfold pbkdf2_384, call1. toy_red. rewrite z_length. apply num_nat4.
   - intros p s m t q n k. unfold argon2id. toy_red. cbn [opt1]. intros E; inversion E. rewrite z_length. apply num_nat4.
   - intros k n a m. unfold xcp_seal. toy_red. split; reflexivity.
-  - intros k n a m. unfold xcp_open, xcp_seal. toy_red. reflexivity.
-  - intros k n a c t m. unfold xcp_open. toy_red. cbn [opt1]. intros E; inversion E; reflexivity.
+  - intros k n a m. unfold xcp_open, xcp_seal. toy_red. rewrite beq_refl. reflexivity.
+  - intros k n a c t m. unfold xcp_open. toy_red. destruct (beq t (z 16)); cbn [opt1]; [|discriminate].
+    intros E; inversion E; reflexivity.
+  - intros k n a c t t' m m'. unfold xcp_open. toy_red.
+    destruct (beq t (z 16)) eqn:E1; cbn [opt1]; [|discriminate].
+    destruct (beq t' (z 16)) eqn:E2; cbn [opt1]; [|discriminate].
+    intros _ _. apply beq_eq in E1, E2. congruence.
   - intros sd. reflexivity.
   - intros sd. reflexivity.
   - intros sd m. reflexivity.
